@@ -501,17 +501,50 @@ def _has(src, frag):
     return _ws(frag) in _ws(src)
 
 
+FKINDS = ["KRegular", "KSymlink", "KDirectory", "KMissing"]
+# predicates on a path whose value is a function of the kind lstat reports (regular file, symbolic link,
+# directory, nothing).  Predicates that follow links (isfile, isdir, exists, ...) are not such functions:
+# a branch on one of them is not understood and fails closed.
+LSTAT_PREDICATES = {"islink": {"KRegular": False, "KSymlink": True, "KDirectory": False, "KMissing": False}}
+
+
+def _kind_conjuncts(test, var, required, where):
+    """`test` must be a conjunction that contains each source text in `required` exactly once; every other conjunct
+    must be `<var>.<lstat predicate>()` or its negation.  Returns kind -> bool: for which kinds of `<var>` the
+    remaining (required) conjuncts are evaluated at all."""
+    conj = test.values if isinstance(test, ast.BoolOp) and isinstance(test.op, ast.And) else [test]
+    seen = []
+    table = {k: True for k in FKINDS}
+    for c in conj:
+        txt = _ws(ast.unparse(c))
+        if txt in required:
+            seen.append(txt)
+            continue
+        neg = False
+        inner = c
+        if isinstance(inner, ast.UnaryOp) and isinstance(inner.op, ast.Not):
+            neg, inner = True, inner.operand
+        ok = (isinstance(inner, ast.Call) and not inner.args and not inner.keywords and isinstance(inner.func, ast.Attribute)
+              and ast.unparse(inner.func.value) == var and inner.func.attr in LSTAT_PREDICATES)
+        if not ok:
+            raise TranslatorError(f"{where}: condition not understood: {txt[:80]!r}")
+        for k in FKINDS:
+            table[k] = table[k] and (LSTAT_PREDICATES[inner.func.attr][k] != neg)
+    if sorted(seen) != sorted(required):
+        raise TranslatorError(f"{where}: expected the conjunct(s) {required}, found {seen}")
+    return table
+
+
 def translate_remove(en):
-    """Shape facts of remove_deletable_files / _prune_empty_dirs / _try_remove."""
+    """remove_deletable_files / _prune_empty_dirs / _try_remove.  The loop over the queued files is read
+    structurally: for which kinds of path (lstat) the recorded hash is compared before the removal, and whether all
+    decisions are taken before the first removal.  Returns (hash_checked: kind -> bool, decide_first: bool)."""
     tree = parse_module(f"{CORE}/finalize.py")
     fn = find_function(tree, "remove_deletable_files")
+    body = body_without_docstring(fn)
     src = ast.unparse(fn)
     frags = [
         "file_paths = [path for path in workflow.to_be_deleted if not path.endswith(os.sep)]",
-        "for file_path in sorted(file_paths, reverse=True):",
-        "old_hash = workflow.to_be_deleted[file_path]",
-        "if old_hash is not None:\n        try:\n            if old_hash.refreshed(path) != old_hash:\n                continue\n        except HashError:",
-        "if _try_remove(path.remove):",
         "dirs = {Path(path).normpath() for path in workflow.to_be_deleted if path.endswith(os.sep)}",
         "await _prune_empty_dirs(dirs, reporter)",
         "workflow.to_be_deleted.clear()",
@@ -519,6 +552,44 @@ def translate_remove(en):
     for f in frags:
         if not _has(src, f):
             raise TranslatorError(f"remove_deletable_files: fragment missing: {f[:70]!r}")
+    loops = [st for st in body if isinstance(st, ast.For)]
+    where = "remove_deletable_files"
+    if not loops or _ws(ast.unparse(loops[0].iter)) != "sorted(file_paths, reverse=True)" \
+            or ast.unparse(loops[0].target) != "file_path" or loops[0].orelse:
+        raise TranslatorError(f"{where}: the loop over sorted(file_paths, reverse=True) changed")
+    lb = loops[0].body
+    if len(lb) != 4 or _ws(ast.unparse(lb[0])) != "old_hash = workflow.to_be_deleted[file_path]" \
+            or _ws(ast.unparse(lb[1])) != "path = Path(file_path)" or not isinstance(lb[2], ast.If) or lb[2].orelse:
+        raise TranslatorError(f"{where}: body of the file loop changed")
+    checked = _kind_conjuncts(lb[2].test, "path", ["old_hash is not None"], where)
+    chk = lb[2].body
+    ok = (len(chk) == 1 and isinstance(chk[0], ast.Try) and not chk[0].orelse and not chk[0].finalbody
+          and [_ws(ast.unparse(x)) for x in chk[0].body] == [_ws("if old_hash.refreshed(path) != old_hash:\n    continue")]
+          and len(chk[0].handlers) == 1 and ast.unparse(chk[0].handlers[0].type) == "HashError"
+          and isinstance(chk[0].handlers[0].body[-1], ast.Continue)
+          and not (_names_in(ast.Module(body=chk[0].handlers[0].body, type_ignores=[])) & REMOVERS))
+    if not ok:
+        raise TranslatorError(f"{where}: the hash comparison before the removal changed")
+    remove_now = _ws("if _try_remove(path.remove):\n    await reporter('REMOVE', path)")
+    last = _ws(ast.unparse(lb[3]))
+    if last == remove_now and len(loops) == 1:
+        decide_first = False
+    elif last == "removable.append(path)" and len(loops) == 2:
+        # two passes: every decision is taken on the tree as it was, then the removals
+        idx = body.index(loops[0])
+        second = loops[1]
+        ok = (idx > 0 and _ws(ast.unparse(body[idx - 1])) == "removable = []" and body.index(second) == idx + 1
+              and ast.unparse(second.target) == "path" and ast.unparse(second.iter) == "removable" and not second.orelse
+              and [_ws(ast.unparse(x)) for x in second.body] == [remove_now])
+        if not ok:
+            raise TranslatorError(f"{where}: two-pass removal not in the recognised shape")
+        decide_first = True
+    else:
+        raise TranslatorError(f"{where}: the removal statement of the file loop changed: {last[:80]!r}")
+    # nothing else in the function removes anything
+    nrem = sum(1 for n in ast.walk(fn) if isinstance(n, ast.Attribute) and n.attr in REMOVERS)
+    if nrem != 1:
+        raise TranslatorError(f"{where}: {nrem} removal primitives, expected exactly path.remove")
     fn = find_function(tree, "_prune_empty_dirs")
     src = ast.unparse(fn)
     frags = [
@@ -535,6 +606,7 @@ def translate_remove(en):
     src = ast.unparse(fn)
     if not _has(src, "try:\n        remove()\n    except OSError:\n        return False\n    return True"):
         raise TranslatorError("_try_remove changed")
+    return checked, decide_first
 
 
 def translate_clean(en):
@@ -555,8 +627,6 @@ def translate_clean(en):
     frags = [
         "tr_consuming_paths = search_consuming_paths(con, tr_matching_paths, not args.all)",
         "tr_consuming_paths.sort(reverse=True)",
-        "missing = not lo_consuming_path.exists()",
-        "changed = state != FileState.VOLATILE and old_file_hash.refreshed(lo_consuming_path) != old_file_hash",
         "if args.safe and changed:",
         "if args.commit:\n                lo_consuming_path.remove_p()\n                parents.add(lo_consuming_path.parent)",
         "for parent in sorted(parents):",
@@ -566,6 +636,28 @@ def translate_clean(en):
     for f in frags:
         if not _has(src, f):
             raise TranslatorError(f"clean.clean: fragment missing: {f[:70]!r}")
+    # the per-path decision: which test says "missing", and for which kinds (lstat) the hash is compared
+    cfn = find_function(tree, "clean")
+    assigns = {}
+    for node in ast.walk(cfn):
+        if isinstance(node, ast.Assign) and len(node.targets) == 1 and isinstance(node.targets[0], ast.Name) \
+                and node.targets[0].id in ("missing", "changed", "still_there"):
+            assigns.setdefault(node.targets[0].id, []).append(node.value)
+    if len(assigns.get("missing", [])) != 1 or len(assigns.get("changed", [])) != 2:
+        raise TranslatorError("clean.clean: assignments to missing / changed changed")
+    mtxt = _ws(ast.unparse(assigns["missing"][0]))
+    if mtxt == "not lo_consuming_path.exists()":
+        missing_follows = True
+    elif mtxt == "not lo_consuming_path.lexists()":
+        missing_follows = False
+    else:
+        raise TranslatorError(f"clean.clean: test for a missing path not understood: {mtxt!r}")
+    ch = [v for v in assigns["changed"] if not (isinstance(v, ast.Constant) and v.value is False)]
+    if len(ch) != 1:
+        raise TranslatorError("clean.clean: `changed` is not False when missing and one expression otherwise")
+    clean_checked = _kind_conjuncts(ch[0], "lo_consuming_path",
+                                    ["state != FileState.VOLATILE",
+                                     "old_file_hash.refreshed(lo_consuming_path) != old_file_hash"], "clean.clean")
     ws2 = ws(cl.SQL_MATCH_PATH)
     if ws2 != "SELECT label FROM node JOIN file ON node.i = file.node WHERE label = ? OR {clause}":
         raise TranslatorError("clean.SQL_MATCH_PATH changed")
@@ -574,7 +666,7 @@ def translate_clean(en):
         raise TranslatorError("clean: --unsafe option changed")
     if "'--commit', action='store_true', default=False" not in src or "'--all', action='store_true', default=False" not in src:
         raise TranslatorError("clean: --commit/--all options changed")
-    return states
+    return states, missing_follows, clean_checked
 
 
 # ---------------------------------------------------------------------------------------------
@@ -702,8 +794,8 @@ def generate():
     sql_kinds = classify_sql_sites(sql_sites)
     table = translate_hash_transitions()
     r_need, r_from, r_to, r_exempt, r_step_to = translate_revert(en)
-    translate_remove(en)
-    clean_states = translate_clean(en)
+    rdf_checked, rdf_decide_first = translate_remove(en)
+    clean_states, clean_missing_follows, clean_checked = translate_clean(en)
     sites, callers = scan_removal_sites()
     unknown = [s for s in sites if s not in KNOWN_REMOVAL_SITES]
     if unknown:
@@ -801,6 +893,19 @@ def generate():
         "(* clean.py SELECT_OUTPUTS; `not args.all` appends AND detached *)",
         f"Definition clean_select_states : list N := {N(clean_states)}.",
         "",
+        "(* what lstat reports for a path *)",
+        "Inductive fkind := KRegular | KSymlink | KDirectory | KMissing.",
+        "(* finalize.py remove_deletable_files: for which kinds of a queued path the recorded hash is compared before",
+        "   the removal (the `if` in front of `old_hash.refreshed(path) != old_hash`, read from the AST) *)",
+        "Definition rdf_hash_checked (k : fkind) : bool :=",
+        "  match k with " + " | ".join(f"{k} => {'true' if rdf_checked[k] else 'false'}" for k in FKINDS) + " end.",
+        "(* are all decisions taken before the first removal (two loops) or one path at a time (one loop)? *)",
+        f"Definition rdf_decide_first : bool := {'true' if rdf_decide_first else 'false'}.",
+        "(* clean.py clean: `missing` follows symbolic links (exists) or not (lexists); kinds for which the hash is compared *)",
+        f"Definition clean_missing_follows_links : bool := {'true' if clean_missing_follows else 'false'}.",
+        "Definition clean_hash_checked (k : fkind) : bool :=",
+        "  match k with " + " | ".join(f"{k} => {'true' if clean_checked[k] else 'false'}" for k in FKINDS) + " end.",
+        "",
         "(* file-removal call sites found in stepup/core (all recognised): *)",
     ]
     for s in sites:
@@ -810,5 +915,7 @@ def generate():
     facts = {"guards": guards, "calls": calls, "set_sites": set_sites, "sql_writers": sql_kinds,
              "declare_sites": declare_sites, "create_sites": create_sites, "removal_sites": sites,
              "callers": sorted(cl), "fs": fs,
-             "mark_dir_skips_static_trees": skips_trees, "keep_volatile_on_supply": keep_vol}
+             "mark_dir_skips_static_trees": skips_trees, "keep_volatile_on_supply": keep_vol,
+             "rdf_hash_checked": rdf_checked, "rdf_decide_first": rdf_decide_first,
+             "clean_missing_follows_links": clean_missing_follows, "clean_hash_checked": clean_checked}
     return "\n".join(lines), facts
